@@ -469,8 +469,8 @@ func scenarios() []*explore.Scenario {
 	}
 	add(params{name: "distinct/reload-ok"}, 2, 3, 2)
 	add(params{name: "reuse/reload-ok", reuse: true}, 2, 3, 2)
-	add(params{name: "distinct/reload-fails", reloadFail: true}, 2, 3, 1)
-	add(params{name: "reuse/reload-fails", reuse: true, reloadFail: true}, 2, 3, 1)
+	add(params{name: "distinct/reload-fails", reloadFail: true}, 1, 3, 1)
+	add(params{name: "reuse/reload-fails", reuse: true, reloadFail: true}, 1, 3, 1)
 	add(params{name: "distinct/two-reloads", twoReloads: true}, 1, 3, 2)
 	add(params{name: "reuse3/no-reload", reuse: true, three: true, noReload: true}, 1, 2, 1)
 	add(params{name: "reuse3/reload-ok", reuse: true, three: true}, 1, 2, 2)
